@@ -23,7 +23,7 @@ use texlang_stdlib::*;
 
 // ------------------------------------------------------------------ names
 
-const KNOWN: &[&str] = &["relax", "END", "x", "m", "a", "b", "c", "xa", "xb", "nx", "q", "t", "noexpand", "iftrue", "iffalse", "else", "fi", "or", "ifnum", "ifodd", "ifcase", "myif", "myfi", "myelse", "myor", "hidfi", "capture", "capturetwo", "inject", "w", "n", "long", "outer", "def", "gdef", "let", "global", "par", "<eof>"];
+const KNOWN: &[&str] = &["relax", "END", "x", "m", "a", "b", "c", "xa", "xb", "nx", "q", "t", "noexpand", "iftrue", "iffalse", "else", "fi", "or", "ifnum", "ifodd", "ifcase", "ifeof", "ifht", "ifhf", "myif", "myfi", "myelse", "myor", "hidfi", "capture", "capturetwo", "inject", "w", "n", "long", "outer", "def", "gdef", "let", "global", "par", "<eof>"];
 
 thread_local! {
     static EXTRA: RefCell<HashMap<String, &'static str>> = RefCell::new(HashMap::new());
@@ -145,6 +145,22 @@ impl<S: TexlangState> vm::Handlers<S> for Rec {
 pub struct M {
     pub prefix: prefix::Component,
     pub conditional: conditional::Component,
+    /// only for \ifeof (no stream is ever opened)
+    pub input: input::Component<16>,
+}
+
+/// Conditionals implemented in the harness through the public `Condition` trait, deliberately without a DOC string.
+pub struct IfHarnessTrue;
+impl<S: HasComponent<conditional::Component>> conditional::Condition<S> for IfHarnessTrue {
+    fn evaluate(_: &mut vm::ExpansionInput<S>) -> prelude::Result<bool> {
+        Ok(true)
+    }
+}
+pub struct IfHarnessFalse;
+impl<S: HasComponent<conditional::Component>> conditional::Condition<S> for IfHarnessFalse {
+    fn evaluate(_: &mut vm::ExpansionInput<S>) -> prelude::Result<bool> {
+        Ok(false)
+    }
 }
 #[inline]
 fn step() {
@@ -171,6 +187,7 @@ impl TexlangState for M {
 vm::implement_has_component![M {
     prefix: prefix::Component,
     conditional: conditional::Component,
+    input: input::Component<16>,
 }];
 
 pub fn builtins_m(optimized_xa: bool) -> HashMap<&'static str, command::BuiltIn<M>> {
@@ -190,6 +207,9 @@ pub fn builtins_m(optimized_xa: bool) -> HashMap<&'static str, command::BuiltIn<
         ("ifnum", conditional::get_ifnum()),
         ("ifodd", conditional::get_ifodd()),
         ("ifcase", conditional::get_ifcase()),
+        ("ifeof", input::get_ifeof()),
+        ("ifht", <IfHarnessTrue as conditional::Condition<M>>::build_if_command()),
+        ("ifhf", <IfHarnessFalse as conditional::Condition<M>>::build_if_command()),
         ("or", conditional::get_or()),
         ("else", conditional::get_else()),
         ("fi", conditional::get_fi()),
@@ -306,6 +326,8 @@ pub fn run_full(src: &str, injected: &[Tok], optimized_xa: bool) -> Outcome {
         b.insert("capture", command::BuiltIn::new_execution(capture::<HState>));
         b.insert("inject", command::BuiltIn::new_execution(inject::<HState>));
         b.insert("capturetwo", command::BuiltIn::new_execution(capture_two::<HState>));
+        b.insert("ifht", <IfHarnessTrue as conditional::Condition<HState>>::build_if_command());
+        b.insert("ifhf", <IfHarnessFalse as conditional::Condition<HState>>::build_if_command());
         b.insert("relax", command::BuiltIn::new_execution(relax_recorded::<HState>));
         b.insert("END", command::BuiltIn::new_execution(relax_recorded::<HState>));
         b.insert("xa", if optimized_xa { expansion::get_expandafter_optimized() } else { expansion::get_expandafter_simple() });
